@@ -131,6 +131,8 @@ def build(case):
     if holds:
         m.holds = BMSHoldList(holds)
     m.samples = {k.encode(): v.encode() for k, v in case["samples"].items()}
+    if len(case["title"]) % 3 == 0 and holds:
+        m.ln_end_channel = [b"zz", b"0z", b"Zy"][len(case["artist"]) % 3]   # an end marker id with lower-case letters, matched as written
     m.title, m.artist, m.version = case["title"].encode(), case["artist"].encode(), case["version"].encode()
     return m
 
